@@ -409,3 +409,44 @@ def run_factory_case(ji, which, env):
     except Exception:  # noqa: BLE001
         return False                   # valid input is refused after a failed construction
     return after == before and refs == [{"source_name": "d", "external_id": "2"}] and marks == ["marking-definition--613f2e26-407d-48c7-9eca-b8e91df99dc9"]
+
+
+# ---- an ordinary Python subclass of a library class (the documented way to add behaviour) constructs and refuses like its base
+BUILDABLE = gen.buildable()[0]
+NBUILD = len(BUILDABLE)
+
+
+def plain_subclass(bi: int, ji: int) -> bool:
+    """
+    pre: 0 <= bi < NBUILD and 0 <= ji < NJ
+    post: _
+    """
+    bi = pick(bi, NBUILD)
+    with Native():
+        ok = all(run_subclass_case(bi, j) for j in range(NJ))
+    V.reached()
+    return ok
+
+
+def run_subclass_case(bi, ji):
+    ver, cat, name, cls, kw = BUILDABLE[bi]
+    sub = type("Sub" + cls.__name__, (cls,), {})
+    try:
+        o = sub(**copy.deepcopy(kw))
+    except Exception:  # noqa: BLE001
+        return False                       # the base class builds from these arguments
+    ref = cls(**copy.deepcopy(kw))
+    given = lambda x: {k: v for k, v in json.loads(x.serialize()).items() if k in kw or k in ("type", "spec_version")}   # noqa: E731 (random ids and clock defaults differ)
+    if not (isinstance(o, cls) and given(o) == given(ref) and sorted(o) == sorted(ref)):
+        return False
+    junk = JUNK[ji] if not (isinstance(JUNK[ji], str) and JUNK[ji] in DEEP) else DEEP[JUNK[ji]][0]
+    slot = sorted(kw)[ji % len(kw)] if kw else None
+    if slot is None:
+        return True
+    try:
+        sub(**dict(copy.deepcopy(kw), **{slot: junk}))
+    except ALLOWED:
+        pass
+    except Exception:  # noqa: BLE001
+        return False
+    return True
